@@ -684,6 +684,30 @@ fn mode_args(_args: &[String]) {
             Exp::Panic(_) => ("panic", "panic"),
             _ => ("bad", "bad"),
         };
+        // the list exactly as written (trailing comma included) next to an argument the derive adds itself
+        // (`{__ptr:p}` makes it append `__ptr = *__ptr`): the macro call must still be a well-formed list
+        let reemit = if reemit == "verbatim" && nargs > 0 {
+            let item2 = format!("#[display(\"{{__ptr:p}}\", {})] struct S {{ __ptr: *const u8 }}", src);
+            match expand_one("Display", &item2) {
+                Exp::Ok(t) => {
+                    let ft2 = t.parse::<TokenStream>().map(flat).unwrap_or_default();
+                    let args_flat = flat(ts.clone());
+                    let args_flat = args_flat.trim_end_matches(" ,").trim_end_matches(',').to_string();
+                    if ft2.contains(", ,") || ft2.contains("( ,") {
+                        "empty-argument"
+                    } else if !ft2.contains(&args_flat) {
+                        "altered-with-added-argument"
+                    } else {
+                        "verbatim"
+                    }
+                }
+                Exp::Err(_) => "err-with-added-argument",
+                Exp::Panic(_) => "panic",
+                _ => "bad",
+            }
+        } else {
+            reemit
+        };
         let body = match got {
             Ok(Ok(v)) => format!(
                 "\"kind\":\"ok\",\"probe\":\"{}\",\"reemit\":\"{}\",\"flags\":\"{}\",\"snap\":{},\"got\":[{}],\"want\":[{}]",
